@@ -422,6 +422,66 @@ Qed.
 
 Local Close Scope R_scope.
 
+(** * The mixture std rule: the plain dispersion around the cluster's PRE-step mean, WITHOUT the guard *)
+
+(** fed with the statistics of one iteration it always returns that dispersion (never raises, never undefined) *)
+Lemma mix_var_rule_dispersion (mu : Q) (xs : list Q) :
+  xs <> [] ->
+  exists v, mix_var_rule mu xs (map sqr xs) = Ok v /\ v == mean (map (fun x => sqr (x - mu)) xs) /\ 0 <= v.
+Proof.
+  intros Hne. pose proof (ind_var_saem_dispersion mu xs Hne) as E.
+  pose proof (dispersion_nonneg mu xs) as P.
+  unfold mix_var_rule. destruct xs as [|x xs]; [congruence|]. cbn [map].
+  change (sqr x :: map sqr xs) with (map sqr (x :: xs)). cbv zeta.
+  destruct (Qlt_bool _ 0) eqn:B.
+  - apply Qlt_bool_iff in B. rewrite E in B. exfalso. apply (Qlt_not_le _ _ B P).
+  - eexists. split; [reflexivity|]. split; [exact E | rewrite E; exact P].
+Qed.
+
+(** wherever the guarded rule returns a value, the mixture rule returns the same one (any statistics in force) *)
+Lemma mix_var_rule_partial (tol mu : Q) (S1 S2 : list Q) (v : Q) :
+  0 <= tol -> ind_std_rule tol mu S1 S2 = Ok v -> mix_var_rule mu S1 S2 = Ok v /\ tol <= v.
+Proof.
+  intros Ht H. unfold ind_std_rule in H. unfold mix_var_rule.
+  destruct S1 as [|a S1]; [discriminate|]. destruct S2 as [|b S2]; [discriminate|].
+  unfold guard in H. cbv zeta.
+  destruct (Qlt_bool (ind_var_saem mu (a :: S1) (b :: S2)) tol) eqn:B; [discriminate|].
+  injection H as <-.
+  assert (tol <= ind_var_saem mu (a :: S1) (b :: S2)) as L.
+  { apply Qnot_lt_le. intros C. apply Qlt_bool_iff in C. congruence. }
+  split; [|exact L].
+  destruct (Qlt_bool _ 0) eqn:B0; [|reflexivity].
+  apply Qlt_bool_iff in B0. exfalso. apply (Qlt_not_le _ _ B0). now apply Qle_trans with tol.
+Qed.
+
+(** ... and wherever the guarded rule raises (dispersion below the threshold) the mixture rule STORES the collapsed value *)
+Lemma mix_var_rule_collapse_stored (tol mu : Q) (xs : list Q) :
+  xs <> [] -> mean (map (fun x => sqr (x - mu)) xs) < tol ->
+  ind_std_rule tol mu xs (map sqr xs) = Collapse /\
+  exists v, mix_var_rule mu xs (map sqr xs) = Ok v /\ 0 <= v < tol.
+Proof.
+  intros Hne Hd. split.
+  - now apply (proj1 (ind_std_rule_spec tol mu xs Hne)).
+  - destruct (mix_var_rule_dispersion mu xs Hne) as [v [Hv [E P]]].
+    exists v. split; [exact Hv|]. split; [exact P | now rewrite E].
+Qed.
+
+(** the witness met on the implementation (mixture fit, 7 individuals, every xi still at 0 = the cluster's old mean):
+    the plain rule raises, the mixture rule stores std 0, and the next iteration standardises by 0 *)
+Lemma mix_var_rule_refuted :
+  exists (tol mu : Q) (xs : list Q),
+    0 < tol /\ xs <> [] /\
+    ind_std_rule tol mu xs (map sqr xs) = Collapse /\
+    (exists v, mix_var_rule mu xs (map sqr xs) = Ok v /\ v == 0 /\ std_of (Ok v) = Ok 0%R) /\
+    (forall x m, standardised x m 0 = Undefined).
+Proof.
+  exists (1 # 100000), 0, [0; 0; 0; 0; 0; 0; 0].
+  split; [reflexivity|]. split; [discriminate|]. split; [vm_compute; reflexivity|]. split.
+  - eexists. split; [vm_compute; reflexivity|]. split; [reflexivity|].
+    unfold std_of, res_map. f_equal. unfold Q2R; simpl. rewrite Rmult_0_l. apply sqrt_0.
+  - intros x m. reflexivity.
+Qed.
+
 (** * [update_parameters] is batched *)
 Section Batched.
   Variables (V Stats : Type).
